@@ -143,13 +143,12 @@ func (s *Set) UnmarshalJSON(b []byte) error {
 }
 
 // MarshalJSON marshals the Set into JSON.
-// Set elements are rendered in hash order, which may differ from the original order.
+// Set elements are rendered in hash order, which may differ from the original order. Unmarshalling the result gives a
+// Set which marshals to the same bytes again.
 func (s Set) MarshalJSON() ([]byte, error) {
 	w := &bytes.Buffer{}
 	w.WriteByte('[')
-	orderedKeys := slices.Collect(maps.Keys(s.s))
-	slices.Sort(orderedKeys)
-	for i, k := range orderedKeys {
+	for i, k := range s.orderedSlots() {
 		if i != 0 {
 			w.WriteByte(',')
 		}
@@ -171,9 +170,7 @@ func (s Set) String() string { return string(s.MarshalCedar()) }
 func (s Set) MarshalCedar() []byte {
 	var sb bytes.Buffer
 	sb.WriteRune('[')
-	orderedKeys := slices.Collect(maps.Keys(s.s))
-	slices.Sort(orderedKeys)
-	for i, k := range orderedKeys {
+	for i, k := range s.orderedSlots() {
 		if i != 0 {
 			sb.WriteString(", ")
 		}
@@ -181,6 +178,33 @@ func (s Set) MarshalCedar() []byte {
 	}
 	sb.WriteRune(']')
 	return sb.Bytes()
+}
+
+// orderedSlots returns the occupied slots of the Set in the order in which the elements are marshalled. This is
+// ascending order, unless NewSet wrapped around from the last slot to slot 0 when it looked for a free slot, which shows
+// in an element that sits in a slot below its hash. The run of occupied slots that ends at the last slot then comes
+// first, followed by the slots from 0 on, so that the elements are still listed in the order in which NewSet probes the
+// slots. Building a Set from the elements in this order puts every element back into its slot.
+func (s Set) orderedSlots() []uint64 {
+	slots := slices.Collect(maps.Keys(s.s))
+	slices.Sort(slots)
+
+	wrapped := false
+	for slot, v := range s.s {
+		if v.hash() > slot {
+			wrapped = true
+			break
+		}
+	}
+	if !wrapped {
+		return slots
+	}
+
+	i := len(slots) - 1
+	for i > 0 && slots[i-1]+1 == slots[i] {
+		i--
+	}
+	return slices.Concat(slots[i:], slots[:i])
 }
 
 func (s Set) hash() uint64 {
